@@ -1,1 +1,3 @@
-//! Hooks for property C17 (empty unless needed).
+//! Hooks for property C17: a `RelayTransport` fed by a harness channel (no relay actor),
+//! defined next to the transport in `socket/transports/relay.rs`.
+pub use crate::socket::transports::verif_c17::{PollOutcome, RecvMsg, RelayRecvHarness};
